@@ -14,6 +14,7 @@ TMPOUT=$S/results.jsonl; : > $TMPOUT
 for d in $(for g in $GLOBS; do ls -d /verif/seeded/$g/ 2>/dev/null; done); do
   name=$(basename $d); pid=${name%%-*}
   [ -f $d/patch.diff ] || continue
+  grep -q '"obsolete"' $d/meta.json 2>/dev/null && { echo "$name: obsolete (see meta.json)"; continue; }
   cd $S/repo && git reset -q --hard HEAD && git clean -fdq
   if git apply --check $d/patch.diff 2>/dev/null; then git apply $d/patch.diff; applied=clean
   elif git apply --3way $d/patch.diff >/dev/null 2>&1; then git reset -q; applied=3way
